@@ -10,6 +10,7 @@ CONSTANTS
   StartAll = TRUE
   StartSuf = {TRUE, FALSE}
   EvpAny = FALSE
+  SymFirst = TRUE
   WithSetLast = FALSE
   Guard = "before"
 VIEW View
